@@ -28,6 +28,7 @@ class Real:
         self.ids = {}
         self.retain = retain
         self.accepted_nd = set()          # non-daemon members the group accepted
+        self.app_consumed = []            # what next_done() gave the application before the join
         # members handed to the constructor: futures that are already finished
         self.init_ids = []
         futs = []
@@ -97,6 +98,19 @@ class Real:
             raise
         if not daemon:
             self.accepted_nd.add(tid)
+
+    def app_next(self):
+        """the application calls next_done() while a finished member is queued and the join has not begun:
+        the call does not have to wait"""
+        coro = self.g.next_done()
+        try:
+            coro.send(None)
+        except StopIteration as e:
+            tid = self.ids.get(e.value) if e.value is not None else None
+            self.app_consumed.append(tid)
+            return tid
+        coro.close()
+        raise RuntimeError('next_done() had to wait although a finished member was queued')
 
     def mk_member(self, tid, react, daemon):
         self._mk_member(tid, react, daemon)
@@ -205,7 +219,7 @@ class Real:
                 q.append(['pop', c[1]])
         tasks = sorted(self.ids.get(t, -1) for t in g.tasks)
         want = sorted(self.accepted_nd) if self.retain else sorted(self.ids[t] for t in g._pending)
-        return {'tasks_ok': tasks == want, 'tasks': tasks,
+        return {'tasks_ok': tasks == want, 'tasks': tasks, 'appconsumed': list(self.app_consumed),
                 'pending': sorted(self.ids[t] for t in g._pending), 'daemons': sorted(self.ids[t] for t in g.daemons),
                 'doneq': [self.ids[t] for t in g._done], 'semv': g._semaphore._value, 'joined': g.joined,
                 'completed': self.ids.get(g.completed) if g.completed is not None else None,
@@ -274,6 +288,11 @@ def run_case(case):
                 except RuntimeError:
                     pass
                 label = ['spawn', new, act[1], act[2]]
+            elif kind == 'appnext':
+                if R.entered or R.exiting or not R.g._done or (R.J is not None and R.J.done()):
+                    continue       # (the model has this call only before the joining task has run)
+                R.app_next()
+                label = ['appnext']
             elif kind == 'cancelJ':
                 if not started or R.J.done():
                     continue
@@ -376,6 +395,8 @@ def label_term(l):
         return f"(LCancelMember {c_N(l[1])})"
     if k == 'start':
         return 'LStart'
+    if k == 'appnext':
+        return 'LAppNext'
     if k == 'cancelJ':
         return 'LCancelJoiner'
     if k == 'run':
@@ -389,7 +410,8 @@ def snap_term(s):
     return (f"{{| s_pending := {nl(s['pending'])}; s_daemons := {nl(s['daemons'])}; s_doneq := {nl(s['doneq'])}; "
             f"s_semv := {c_nat(s['semv'])}; s_joined := {c_bool(s['joined'])}; s_completed := {comp}; "
             f"s_finished := {nl(s['finished'])}; s_queue := {c_list([handle_term(h) for h in s['queue']], 'handle')}; "
-            f"s_jdone := {c_bool(s['jdone'])}; s_cancelreq := {nl(s['cancelreq'])}; s_jcancelled := {c_bool(s['jcancelled'])} |}}")
+            f"s_jdone := {c_bool(s['jdone'])}; s_cancelreq := {nl(s['cancelreq'])}; s_jcancelled := {c_bool(s['jcancelled'])}; "
+            f"s_appconsumed := {nl(s.get('appconsumed', []))} |}}")
 
 
 def coq_case(case, obs):
@@ -429,10 +451,20 @@ def gen_case(rng, opts=None):
             actions.append(['cancelM', rng.randrange(8)])
         elif r < 0.975:
             actions.append(['spawn', rng.random() < 0.3])
+        elif r < 0.982:
+            actions.append(['appnext'])
         elif r < 0.99:
             actions.append(['addfin', rng.random() < 0.25, rng.choice(['RetNone', 'RetVal', 'RetVal', 'Exc', 'Canc'])])
         else:
             actions.append(['tick'])
+    if rng.random() < 0.25:
+        # the application looks at the first finishers itself (next_done) before it joins
+        k = rng.randrange(0, max(1, len(actions) // 2))
+        pre = [a for a in actions[:k] if a[0] != 'start']
+        m = rng.randrange(1, 4)
+        first = [x for _ in range(m) for x in (['finish', rng.randrange(8), rng.choice([['ret', 1], ['ret', None], ['exc']])],
+                                               ['tick'], ['tick'], ['tick'])]
+        actions = pre + first + [['appnext']] * rng.randrange(1, 4) + actions[k:]
     actions += [['start']] + [['tick']] * 3
     init = [[rng.random() < 0.25, rng.choice(['RetNone', 'RetVal', 'RetVal', 'Exc', 'Canc'])]
             for _ in range(rng.choice([0, 0, 0, 0, 1, 2]))]
